@@ -2,7 +2,7 @@
 use std::{
     panic::{catch_unwind, AssertUnwindSafe},
     sync::{
-        atomic::{AtomicBool, Ordering},
+        atomic::{AtomicBool, AtomicU32, AtomicU64, AtomicUsize, Ordering},
         mpsc, Arc,
     },
     time::{Duration, Instant},
@@ -67,6 +67,10 @@ pub struct DirectCase {
     pub idle_ms: u8,
     pub threads: u8,
     pub phases: Vec<Phase>,
+    /// reproduction aid for hand-written cases only (always 0 in generated cases): number of
+    /// spinning threads that keep the CPUs oversubscribed while the case runs
+    #[serde(default)]
+    pub hogs: u8,
 }
 
 #[derive(Debug, Clone)]
@@ -77,6 +81,8 @@ struct Rec {
     ran_inline: bool,
     dropped_back: bool,
     gave_up: bool,
+    /// single dispatcher: refused although no pool worker thread existed
+    refused_dead: bool,
 }
 
 enum Cmd {
@@ -90,6 +96,92 @@ enum Evt {
 }
 
 type ResMsg = (usize, Result<u64, String>);
+
+/// What the controller can see of a dispatching thread from outside.
+#[derive(Default)]
+struct ThreadProbe {
+    tid: AtomicU32,
+    in_dispatch: AtomicBool,
+    calls: AtomicU64,
+}
+
+fn own_tid() -> u32 {
+    std::fs::read_link("/proc/thread-self").ok().and_then(|p| p.file_name().and_then(|n| n.to_str().and_then(|s| s.parse().ok()))).unwrap_or(0)
+}
+
+/// scheduler state letter of a thread (`S` = sleeping in a blocking call such as a futex wait)
+fn task_state(tid: u32) -> Option<char> {
+    let s = std::fs::read_to_string(format!("/proc/self/task/{tid}/stat")).ok()?;
+    s[s.rfind(')')? + 1..].trim_start().chars().next()
+}
+
+enum Waited {
+    Evt(Evt),
+    /// (the event that arrived after the rescue, description)
+    Rescued(Evt, String),
+    TimedOut,
+}
+
+/// Wait for the next event of a dispatching thread.  If a thread sits in one and the same
+/// `dispatch` call for 2 s, is asleep, and *no pool worker thread exists* on three samples 100 ms
+/// apart, nobody can ever take its job: `dispatch` spawned a worker that idled out before the
+/// rendezvous `send`.  Rescue rule: a no-op dispatched from another thread is irrelevant to a
+/// correct pool; here its fresh worker first serves the stranded sender, which proves the diagnosis
+/// (and frees the thread).
+fn wait_evt(rx: &mpsc::Receiver<Evt>, probes: &[Arc<ThreadProbe>], pool: &AsyncifyPool, max: Duration) -> Waited {
+    let start = Instant::now();
+    let mut last: Vec<(u64, Instant, u32)> = probes.iter().map(|p| (p.calls.load(Ordering::SeqCst), Instant::now(), 0)).collect();
+    let mut rescued: Option<String> = None;
+    loop {
+        match rx.recv_timeout(Duration::from_millis(100)) {
+            Ok(e) => {
+                return match rescued {
+                    Some(d) => Waited::Rescued(e, d),
+                    None => Waited::Evt(e),
+                }
+            }
+            Err(mpsc::RecvTimeoutError::Disconnected) => return Waited::TimedOut,
+            Err(mpsc::RecvTimeoutError::Timeout) => {}
+        }
+        if start.elapsed() > max {
+            return Waited::TimedOut;
+        }
+        if rescued.is_some() {
+            continue;
+        }
+        for (p, l) in probes.iter().zip(last.iter_mut()) {
+            let calls = p.calls.load(Ordering::SeqCst);
+            if calls != l.0 || !p.in_dispatch.load(Ordering::SeqCst) {
+                *l = (calls, Instant::now(), 0);
+                continue;
+            }
+            if l.1.elapsed() < Duration::from_secs(2) {
+                continue;
+            }
+            let asleep = task_state(p.tid.load(Ordering::SeqCst)) == Some('S');
+            let no_worker = tasks_named(DISP) <= probes.len() + LEAKED.load(Ordering::SeqCst);
+            if asleep && no_worker && p.calls.load(Ordering::SeqCst) == calls {
+                l.2 += 1;
+            } else {
+                l.2 = 0;
+            }
+            if l.2 >= 3 {
+                rescued = Some(format!(
+                    "a dispatching thread has been asleep inside one dispatch() call for {:.1} s while no pool worker thread exists (the worker spawned for it idled out before the rendezvous send)",
+                    l.1.elapsed().as_secs_f64()
+                ));
+                let pool = pool.clone();
+                let _ = std::thread::Builder::new().name("c17resc".into()).spawn(move || {
+                    let _ = pool.dispatch(|| {});
+                });
+                break;
+            }
+        }
+    }
+}
+
+/// dispatcher threads that could not be freed (counted out of the worker census of later cases)
+static LEAKED: AtomicUsize = AtomicUsize::new(0);
 
 fn expected_value(id: usize) -> u64 {
     (id as u64).wrapping_mul(0x9E37_79B9_7F4A_7C15) ^ 0xC17
@@ -114,15 +206,35 @@ fn make_job(sh: &Arc<Shared>, id: usize, dur_us: u32, body: Body, res: mpsc::Sen
 }
 
 const WATCHDOG: Duration = Duration::from_secs(30);
+const RETRY_WATCHDOG: Duration = Duration::from_secs(10);
 
 pub fn run_direct(case: &DirectCase) -> Outcome {
     let threads = case.threads.clamp(1, 6) as usize;
     let limit = case.limit.clamp(1, 8) as usize;
-    let idle = Duration::from_millis(case.idle_ms.clamp(5, 50) as u64);
+    let idle = Duration::from_millis(case.idle_ms.clamp(1, 50) as u64);
     // isolation: no pool worker of an earlier case may be alive (they retire after <= 50 ms)
-    if !wait_no_workers(DISP, 0, Duration::from_secs(10)) {
+    if !wait_no_workers(DISP, LEAKED.load(Ordering::SeqCst), Duration::from_secs(10)) {
         return Outcome::inconclusive("pool workers of an earlier case still alive");
     }
+    let hog_stop = Arc::new(AtomicBool::new(false));
+    struct StopHogs(Arc<AtomicBool>, Vec<std::thread::JoinHandle<()>>);
+    impl Drop for StopHogs {
+        fn drop(&mut self) {
+            self.0.store(true, Ordering::SeqCst);
+            for h in self.1.drain(..) {
+                let _ = h.join();
+            }
+        }
+    }
+    let _hogs = StopHogs(
+        hog_stop.clone(),
+        (0..case.hogs)
+            .filter_map(|_| {
+                let stop = hog_stop.clone();
+                std::thread::Builder::new().name("c17hog".into()).spawn(move || while !stop.load(Ordering::Relaxed) { std::hint::spin_loop() }).ok()
+            })
+            .collect(),
+    );
     // job table
     let mut plan: Vec<Vec<Vec<(usize, DJob)>>> = vec![vec![vec![]; threads]; case.phases.len()];
     let mut njobs = 0;
@@ -143,19 +255,30 @@ pub fn run_direct(case: &DirectCase) -> Outcome {
     let plan = Arc::new(plan);
     let mut cmd_txs = vec![];
     let mut handles = vec![];
+    let probes: Vec<Arc<ThreadProbe>> = (0..threads).map(|_| Arc::new(ThreadProbe::default())).collect();
     for t in 0..threads {
         let (ctx, crx) = mpsc::channel::<Cmd>();
         cmd_txs.push(ctx);
+        let probe = probes[t].clone();
         let (pool, sh, res_tx, evt_tx, line, plan, abort) = (pool.clone(), sh.clone(), res_tx.clone(), evt_tx.clone(), line.clone(), plan.clone(), abort.clone());
         let h = std::thread::Builder::new()
             .name(DISP.into())
             .spawn(move || {
                 let mut round = 0;
+                probe.tid.store(own_tid(), Ordering::SeqCst);
+                let enter = || {
+                    probe.calls.fetch_add(1, Ordering::SeqCst);
+                    probe.in_dispatch.store(true, Ordering::SeqCst);
+                };
+                let leave = || probe.in_dispatch.store(false, Ordering::SeqCst);
                 while let Ok(cmd) = crx.recv() {
                     match cmd {
                         Cmd::Probe(id) => {
                             let job = make_job(&sh, id, 0, Body::Value, res_tx.clone());
-                            let ok = match pool.dispatch(job) {
+                            enter();
+                            let r = pool.dispatch(job);
+                            leave();
+                            let ok = match r {
                                 Ok(()) => true,
                                 Err(DispatchError(back)) => {
                                     // keep the exactly-once accounting intact: run it here
@@ -172,11 +295,14 @@ pub fn run_direct(case: &DirectCase) -> Outcome {
                             line.wait(threads, round);
                             let mut recs = vec![];
                             for (id, j) in &plan[pi][t] {
-                                let mut rec = Rec { id: *id, accepted: false, rejects: 0, ran_inline: false, dropped_back: false, gave_up: false };
+                                let mut rec = Rec { id: *id, accepted: false, rejects: 0, ran_inline: false, dropped_back: false, gave_up: false, refused_dead: false };
                                 let mut job = make_job(&sh, *id, j.dur_us as u32, j.body, res_tx.clone());
                                 let start = Instant::now();
                                 loop {
-                                    match pool.dispatch(job) {
+                                    enter();
+                                    let r = pool.dispatch(job);
+                                    leave();
+                                    match r {
                                         Ok(()) => {
                                             rec.accepted = true;
                                             break;
@@ -185,7 +311,27 @@ pub fn run_direct(case: &DirectCase) -> Outcome {
                                             rec.rejects += 1;
                                             match j.on_full {
                                                 OnFull::Retry => {
-                                                    if start.elapsed() > WATCHDOG || abort.load(Ordering::Relaxed) {
+                                                    // exact when this is the only dispatching thread: nobody else can create a
+                                                    // worker, so "no worker exists, then dispatch refuses" means the pool is dead
+                                                    if threads == 1 && rec.rejects % 64 == 0 && tasks_named(DISP) <= 1 + LEAKED.load(Ordering::SeqCst) {
+                                                        enter();
+                                                        let r = pool.dispatch(back);
+                                                        leave();
+                                                        match r {
+                                                            Ok(()) => {
+                                                                rec.accepted = true;
+                                                            }
+                                                            Err(DispatchError(back)) => {
+                                                                rec.refused_dead = true;
+                                                                INLINE.with(|c| c.set(true));
+                                                                let _ = catch_unwind(AssertUnwindSafe(back));
+                                                                INLINE.with(|c| c.set(false));
+                                                                rec.ran_inline = true;
+                                                            }
+                                                        }
+                                                        break;
+                                                    }
+                                                    if start.elapsed() > RETRY_WATCHDOG || abort.load(Ordering::Relaxed) {
                                                         rec.gave_up = true;
                                                         drop(back);
                                                         break;
@@ -232,6 +378,7 @@ pub fn run_direct(case: &DirectCase) -> Outcome {
     let mut after_retire = false;
     let mut next_probe = njobs;
     let mut inconclusive: Option<String> = None;
+    let mut stranded: Option<String> = None;
 
     'phases: for (pi, ph) in case.phases.iter().enumerate() {
         if after_retire && !ph.jobs.is_empty() {
@@ -239,9 +386,17 @@ pub fn run_direct(case: &DirectCase) -> Outcome {
             let id = next_probe;
             next_probe += 1;
             let _ = cmd_txs[0].send(Cmd::Probe(id));
-            match evt_rx.recv_timeout(WATCHDOG) {
-                Ok(Evt::Probe(ok)) => {
-                    recs[id] = Some(Rec { id, accepted: ok, rejects: !ok as u32, ran_inline: !ok, dropped_back: false, gave_up: false });
+            let w = wait_evt(&evt_rx, &probes, &pool, WATCHDOG);
+            let w = match w {
+                Waited::Rescued(e, d) => {
+                    stranded = Some(d);
+                    Waited::Evt(e)
+                }
+                w => w,
+            };
+            match w {
+                Waited::Evt(Evt::Probe(ok)) => {
+                    recs[id] = Some(Rec { id, accepted: ok, rejects: !ok as u32, ran_inline: !ok, dropped_back: false, gave_up: false, refused_dead: false });
                     expected_drops += 1;
                     retire_then_job = true;
                     if !ok {
@@ -259,11 +414,20 @@ pub fn run_direct(case: &DirectCase) -> Outcome {
             let _ = c.send(Cmd::Phase(pi));
         }
         for _ in 0..threads {
-            match evt_rx.recv_timeout(WATCHDOG + Duration::from_secs(10)) {
-                Ok(Evt::Phase(rs)) => {
+            let w = wait_evt(&evt_rx, &probes, &pool, WATCHDOG + Duration::from_secs(10));
+            let w = match w {
+                Waited::Rescued(e, d) => {
+                    stranded = Some(d);
+                    Waited::Evt(e)
+                }
+                w => w,
+            };
+            match w {
+                Waited::Evt(Evt::Phase(rs)) => {
                     for r in rs {
                         expected_drops += 1;
-                        recs[r.id] = Some(r);
+                        let id = r.id;
+                        recs[id] = Some(r);
                     }
                 }
                 _ => {
@@ -294,7 +458,7 @@ pub fn run_direct(case: &DirectCase) -> Outcome {
                 }
             }
             Gap::Retire => {
-                if wait_no_workers(DISP, threads, idle * 40 + Duration::from_secs(5)) {
+                if wait_no_workers(DISP, threads + LEAKED.load(Ordering::SeqCst), idle * 40 + Duration::from_secs(5)) {
                     after_retire = true;
                     labels.push("retired-observed".into());
                 } else {
@@ -307,6 +471,8 @@ pub fn run_direct(case: &DirectCase) -> Outcome {
     drop(cmd_txs);
     if inconclusive.is_some() {
         // threads may be stuck inside the pool; do not join them
+        let stuck = probes.iter().filter(|p| p.in_dispatch.load(Ordering::SeqCst)).count();
+        LEAKED.fetch_add(stuck, Ordering::SeqCst);
         return Outcome::inconclusive(inconclusive.unwrap());
     }
     for h in handles {
@@ -323,7 +489,12 @@ pub fn run_direct(case: &DirectCase) -> Outcome {
     }
 
     // ------------------------------------------------------------------ oracle
-    let class = if threads == 1 { "single-dispatch" } else { "concurrent-dispatch" };
+    // class = how many threads ever called dispatch (thread 0 also sends the probes)
+    let mut active: Vec<bool> = (0..threads).map(|t| plan.iter().any(|ph| !ph[t].is_empty())).collect();
+    if retire_then_job {
+        active[0] = true;
+    }
+    let class = if active.iter().filter(|a| **a).count() <= 1 { "single-dispatch" } else { "concurrent-dispatch" };
     let mut saturated = false;
     let all_jobs: Vec<(usize, Body)> = case
         .phases
@@ -337,6 +508,9 @@ pub fn run_direct(case: &DirectCase) -> Outcome {
         let Some(r) = &recs[id] else { continue };
         if r.gave_up {
             return Outcome::inconclusive("retrying dispatcher gave up after the watchdog");
+        }
+        if r.refused_dead {
+            probe_refused = true;
         }
         if r.rejects > 0 {
             saturated = true;
@@ -377,6 +551,9 @@ pub fn run_direct(case: &DirectCase) -> Outcome {
             }
         }
     }
+    if let Some(d) = stranded {
+        return Outcome::violation("C17/dispatch-blocked/no-worker-alive", format!("limit {limit}, idle timeout {} ms: {d}; a no-op dispatched from another thread released it", idle.as_millis()));
+    }
     if probe_refused {
         return Outcome::violation(
             "C17/refused-with-no-worker-alive",
@@ -384,7 +561,7 @@ pub fn run_direct(case: &DirectCase) -> Outcome {
         );
     }
     // hygiene + retirement really happens
-    let clean = wait_no_workers(DISP, 0, idle * 40 + Duration::from_secs(5));
+    let clean = wait_no_workers(DISP, LEAKED.load(Ordering::SeqCst), idle * 40 + Duration::from_secs(5));
     if !clean {
         labels.push(format!("workers-alive-at-end:{}", tasks_named(DISP)));
     }
@@ -441,14 +618,14 @@ pub fn case_strategy() -> impl Strategy<Value = DirectCase> + Clone {
         prop_oneof![4 => Just(1u8), 6 => 2u8..=6],
         vec(phase_strategy(), 1..=3),
     )
-        .prop_map(|(limit, idle_ms, threads, phases)| DirectCase { limit, idle_ms, threads, phases })
+        .prop_map(|(limit, idle_ms, threads, phases)| DirectCase { limit, idle_ms, threads, phases, hogs: 0 })
 }
 
 fn burst(n: usize, threads: u16, dur_us: u16) -> Vec<DJob> {
     (0..n).map(|i| DJob { thread: ((i as u32 * 65536 / threads as u32) % 65536) as u16, dur_us, body: Body::Value, on_full: OnFull::Retry }).collect()
 }
 
-pub fn run(s: &mut Session) {
+pub fn run(s: &mut Session) -> bool {
     let mut p = Part::new(
         "C17",
         "direct",
@@ -458,10 +635,10 @@ pub fn run(s: &mut Session) {
          followed by a probe dispatch that must be accepted). Classes: single-dispatch (1 thread) and concurrent-dispatch (>=2). \
          Non-trivial = some dispatch was refused (more jobs in flight than the limit) or a job ran after all workers had retired; distinct = distinct serialised case.",
     );
-    p.quick_cases = 360;
+    p.quick_cases = 400;
     p.thorough_cases = 9000;
-    p.replay_repeats = 200;
-    p.max_shrink_iters = 60;
+    p.replay_repeats = 30;
+    p.max_shrink_iters = 16;
     p.assumptions = vec![
         "threads created by the pool inherit the comm of the dispatching harness thread (Linux clone semantics), which is how live pool workers are counted",
         "flume's rendezvous channel is trusted",
@@ -469,7 +646,34 @@ pub fn run(s: &mut Session) {
     p.regressions = vec![
         (
             "limit1-four-threads-at-the-start-line",
-            DirectCase { limit: 1, idle_ms: 20, threads: 4, phases: vec![Phase { jobs: burst(8, 4, 4000), gap: Gap::Sleep(0) }] },
+            DirectCase { limit: 1, idle_ms: 20, threads: 4, phases: vec![Phase { jobs: burst(8, 4, 4000), gap: Gap::Sleep(0) }], hogs: 0 },
+        ),
+        (
+            // known finding: one dispatching thread, limit 2, short job then long ones
+            "single-dispatcher-limit2-short-then-long",
+            DirectCase {
+                limit: 2,
+                idle_ms: 5,
+                threads: 1,
+                phases: (0..3)
+                    .map(|_| Phase {
+                        jobs: [100u16, 20000, 20000, 20000, 20000].iter().map(|d| DJob { thread: 0, dur_us: *d, body: Body::Value, on_full: OnFull::DropIt }).collect(),
+                        gap: Gap::Retire,
+                    })
+                    .collect(),
+                hogs: 0,
+            },
+        ),
+        (
+            // known finding: idle timeout 1 ms, every dispatch has to spawn a worker
+            "idle-1ms-every-dispatch-spawns",
+            DirectCase {
+                limit: 1,
+                idle_ms: 1,
+                threads: 1,
+                phases: (0..40).map(|_| Phase { jobs: vec![DJob { thread: 0, dur_us: 0, body: Body::Value, on_full: OnFull::Retry }], gap: Gap::Sleep(3) }).collect(),
+                hogs: 40,
+            },
         ),
         (
             "single-dispatcher-burst-retire-then-job",
@@ -478,6 +682,7 @@ pub fn run(s: &mut Session) {
                 idle_ms: 10,
                 threads: 1,
                 phases: vec![Phase { jobs: burst(6, 1, 1500), gap: Gap::Retire }, Phase { jobs: burst(3, 1, 0), gap: Gap::Sleep(0) }],
+                hogs: 0,
             },
         ),
         (
@@ -490,8 +695,13 @@ pub fn run(s: &mut Session) {
                     Phase { jobs: vec![DJob { thread: 0, dur_us: 100, body: Body::PanicRaw, on_full: OnFull::Retry }], gap: Gap::Retire },
                     Phase { jobs: burst(2, 1, 100), gap: Gap::Sleep(0) },
                 ],
+                hogs: 0,
             },
         ),
     ];
-    s.run_part(p, case_strategy(), run_direct);
+    if s.args.shard.0 != 0 {
+        // the fixed cases run once per check, in shard 0
+        p.regressions.clear();
+    }
+    s.run_part(p, case_strategy(), |c| crate::with_breaker(c, run_direct))
 }
